@@ -259,9 +259,7 @@ func (exp *expressionStream) normalizeLicense(license string) *token {
 		if token := licenseLookup(adjustedLicense); token != nil {
 			// replace `-or-later` with `+`
 			newExpression := exp.expression[0:exp.index-len("-or-later")] + "+"
-			if exp.hasMore() {
-				newExpression += exp.expression[exp.index+1:]
-			}
+			newExpression += strings.TrimPrefix(exp.expression[exp.index:], "+")
 			exp.expression = newExpression
 			// update index to remove `-or-later`; now pointing at the `+` operator
 			exp.index -= len("-or-later")
